@@ -2,7 +2,7 @@
 of C04 (forced basic solutions) and C11 (rational basis inverse through the solver API)."""
 import os, sys
 sys.path.insert(0, os.path.dirname(os.path.dirname(os.path.abspath(__file__))))
-from props import two_flavour, COMMON_ASSUME  # noqa: E402
+from props import two_flavour, memcheck_stage, COMMON_ASSUME  # noqa: E402
 
 HARNESSES = {
     'h_exact': dict(src='h_exact.cpp', insts=['inst_soplex']),
@@ -38,8 +38,8 @@ PROPS = {
         level_note='private arrays _rowTypes/_colTypes are read directly (harness opens private members); single-row/column removal is only '
                    'exercised on the last index because the renumbering of other removals is undocumented',
         technique='runtime monitoring: sequential exact mirror of both LPs checked after each API call of seeded histories, under ASan+UBSan',
-        stages=two_flavour('h_exact', 400, 1600, 6000, 20000),
-        minima=lambda t: {'c07.sync_checks': 8000, 'c07.op.clearLPReal': 60, 'c07.op.clearLPRational': 60, 'c07.op.changeElementRational(mpq)': 20, 'c07.op.addRowRational(mpq)': 50,
+        stages=lambda t: two_flavour('h_exact', 400, 1600, 6000, 20000)(t) + [memcheck_stage('h_exact', 48, 1200)(t)],
+        minima=lambda t: {'memcheck.cases_completed': 45, 'c07.exact_solves': 150, 'c07.sync_checks': 8000, 'c07.op.clearLPReal': 60, 'c07.op.clearLPRational': 60, 'c07.op.changeElementRational(mpq)': 20, 'c07.op.addRowRational(mpq)': 50,
                           'c07.manual_syncLPReal': 50, 'c07.manual_syncLPRational': 50, 'c07.onlyreal_copy_checked': 50},
         eval_counter='cases', distinct_set='nontrivial',
         rule='case k -> history seed; 50 (quick) / 80 (thorough) steps drawn from 45 operations; every 4th case adds a real-only exact solve; '
@@ -47,3 +47,12 @@ PROPS = {
         assumptions=COMMON_ASSUME,
     ),
 }
+
+# ---- the SoPlex-API half of C11 (getBasisInverseRowRational / ColRational / TimesVecRational on a solver object after exact solves):
+# rides on the C03 case stream of h_exact; registered through the extension point of propdefs/lu.py (evaluated lazily)
+import props as _p  # noqa: E402
+_p.__dict__.setdefault('STAGE_EXTENSIONS', {}).setdefault('C11', []).append(
+    lambda tier: [dict(name='api-asan', harness='h_exact', flavour='asan', cases=300 if tier == 'quick' else 3000, crash_markers=['lifting=1', 'iterative_refinement=0']),
+                  dict(name='api-opt', harness='h_exact', flavour='opt', cases=1200 if tier == 'quick' else 12000, crash_markers=['lifting=1', 'iterative_refinement=0'])])
+_p.__dict__.setdefault('MINIMA_EXTENSIONS', {}).setdefault('C11', []).append(
+    lambda tier: {'c11.api.bases_checked': 100, 'c11.api.rows_cols_checked': 200, 'c11.api.solves_checked': 100})
